@@ -5,12 +5,14 @@
     what the collecting loop does with each result — an image is stored in its own slot,
     an error is kept only if it is the first error to arrive.
 
-    Proved: the decoded frames do not depend on the arrival order (hence not on the
-    worker count or the schedule); the returned error is nil iff no frame fails, is
-    always the error of some failing frame, and is order-independent when all failing
-    frames report the same error.  REFUTED: that the returned error is order-independent
-    in general (two frames failing with different errors).  The repaired rule (keep the
-    error of the lowest frame index) is proved order-independent. *)
+    [collect] is the loop of the current code (fix 8f1f7ab): an image is stored in its own
+    slot, and of the errors the one of the LOWEST frame index is kept.  Proved: the decoded
+    frames and the returned error do not depend on the arrival order, hence not on the
+    worker count or the schedule; the error is that of the lowest failing frame.
+    [pinned_collect] is the loop of the pinned tree (first error to ARRIVE): its frames are
+    order-independent too, its error is nil iff no frame fails and order-independent when
+    all failing frames report the same error, but REFUTED in general
+    ([pinned_queue_first_error_order_independent_refuted]: two frames, different errors). *)
 From Coq Require Import List ZArith Lia Bool Permutation.
 From Webp Require Import Conc.ConcPartition Conc.ConcPartitionProofs.
 Import ListNotations.
@@ -24,7 +26,7 @@ Section Queue.
     match dec i with inl v => upd frames (Z.to_nat i) (Some v) | inr _ => frames end.
 
   (** the collecting loop of the pinned code: [firstErr] = first error to ARRIVE *)
-  Definition collect (arrival : list Z) (frames0 : list (option A)) : list (option A) * option E :=
+  Definition pinned_collect (arrival : list Z) (frames0 : list (option A)) : list (option A) * option E :=
     fold_left (fun st i =>
                  match dec i with
                  | inl v => (upd (fst st) (Z.to_nat i) (Some v), snd st)
@@ -32,7 +34,7 @@ Section Queue.
                  end) arrival (frames0, None).
 
   (** the repaired loop: keep the error of the lowest frame index *)
-  Definition collect_min (arrival : list Z) (frames0 : list (option A)) : list (option A) * option (Z * E) :=
+  Definition collect (arrival : list Z) (frames0 : list (option A)) : list (option A) * option (Z * E) :=
     fold_left (fun st i =>
                  match dec i with
                  | inl v => (upd (fst st) (Z.to_nat i) (Some v), snd st)
@@ -89,11 +91,11 @@ Section Queue.
   Qed.
 
   (** the decoded frames do not depend on the arrival order, the worker count or the schedule *)
-  Theorem queue_frames_independent : forall total arrival,
+  Theorem pinned_queue_frames_independent : forall total arrival,
     Permutation arrival (zrange total) ->
-    fst (collect arrival (repeat None (Z.to_nat total))) = map slot (zrange total).
+    fst (pinned_collect arrival (repeat None (Z.to_nat total))) = map slot (zrange total).
   Proof.
-    intros total arrival Hperm. unfold collect. rewrite collect_frames.
+    intros total arrival Hperm. unfold pinned_collect. rewrite collect_frames.
     assert (Hin : forall i, In i arrival <-> 0 <= i < total).
     { intros i. rewrite <- zrange_In. split; intros H; [eapply Permutation_in; eauto|].
       eapply Permutation_in; [apply Permutation_sym; eauto|exact H]. }
@@ -128,8 +130,8 @@ Section Queue.
   Definition first_err (arrival : list Z) : option E :=
     fold_left (fun acc i => match acc with Some e0 => Some e0 | None => match dec i with inr e => Some e | inl _ => None end end) arrival None.
 
-  Lemma collect_snd arrival fr : snd (collect arrival fr) = first_err arrival.
-  Proof. unfold collect. rewrite collect_err. reflexivity. Qed.
+  Lemma collect_snd arrival fr : snd (pinned_collect arrival fr) = first_err arrival.
+  Proof. unfold pinned_collect. rewrite collect_err. reflexivity. Qed.
 
   Lemma first_err_acc l : forall e0, fold_left (fun acc i => match acc with Some e0 => Some e0 | None => match dec i with inr e => Some e | inl _ => None end end) l (Some e0) = Some e0.
   Proof. induction l as [|i l IH]; intros e0; cbn; [reflexivity|apply IH]. Qed.
@@ -146,8 +148,8 @@ Section Queue.
   Qed.
 
   (** nil iff no frame fails; otherwise the error of some failing frame *)
-  Theorem queue_error_nil_iff : forall total arrival fr, Permutation arrival (zrange total) ->
-    (snd (collect arrival fr) = None <-> forall i, 0 <= i < total -> ~ fails i).
+  Theorem pinned_queue_error_nil_iff : forall total arrival fr, Permutation arrival (zrange total) ->
+    (snd (pinned_collect arrival fr) = None <-> forall i, 0 <= i < total -> ~ fails i).
   Proof.
     intros total arrival fr Hperm. rewrite collect_snd.
     assert (Hin : forall i, In i arrival <-> 0 <= i < total).
@@ -158,8 +160,8 @@ Section Queue.
     - split; [intros H; congruence|]. intros H. exfalso. apply (H k); [apply Hin; exact Hk|exists e; exact Hd].
   Qed.
 
-  Theorem queue_error_is_some_frames : forall arrival fr e,
-    snd (collect arrival fr) = Some e -> exists i, In i arrival /\ dec i = inr e.
+  Theorem pinned_queue_error_is_some_frames : forall arrival fr e,
+    snd (pinned_collect arrival fr) = Some e -> exists i, In i arrival /\ dec i = inr e.
   Proof.
     intros arrival fr e. rewrite collect_snd. destruct (first_err_spec arrival) as [[H1 _]|(k & e' & Hk & Hd & He)]; intros H.
     - congruence.
@@ -167,23 +169,23 @@ Section Queue.
   Qed.
 
   (** order-independent when every failing frame reports the same error (e.g. one corrupt frame) *)
-  Theorem queue_error_independent_if_unique : forall total arr1 arr2 fr1 fr2 e0,
+  Theorem pinned_queue_error_independent_if_unique : forall total arr1 arr2 fr1 fr2 e0,
     Permutation arr1 (zrange total) -> Permutation arr2 (zrange total) ->
     (forall i e, 0 <= i < total -> dec i = inr e -> e = e0) ->
-    snd (collect arr1 fr1) = snd (collect arr2 fr2).
+    snd (pinned_collect arr1 fr1) = snd (pinned_collect arr2 fr2).
   Proof.
     intros total arr1 arr2 fr1 fr2 e0 P1 P2 Huniq.
     assert (G : forall arr fr, Permutation arr (zrange total) ->
-              snd (collect arr fr) = None \/ snd (collect arr fr) = Some e0).
-    { intros arr fr P. destruct (snd (collect arr fr)) as [e|] eqn:Es; [right|now left].
-      destruct (queue_error_is_some_frames arr fr e Es) as (i & Hi & Hd).
+              snd (pinned_collect arr fr) = None \/ snd (pinned_collect arr fr) = Some e0).
+    { intros arr fr P. destruct (snd (pinned_collect arr fr)) as [e|] eqn:Es; [right|now left].
+      destruct (pinned_queue_error_is_some_frames arr fr e Es) as (i & Hi & Hd).
       f_equal. apply (Huniq i e); [|exact Hd]. apply zrange_In. exact (Permutation_in i P Hi). }
     destruct (G arr1 fr1 P1) as [H1|H1]; destruct (G arr2 fr2 P2) as [H2|H2]; [rewrite H1, H2; reflexivity| | |rewrite H1, H2; reflexivity].
-    - exfalso. pose proof (proj1 (queue_error_nil_iff total arr1 fr1 P1) H1) as H1'.
-      destruct (queue_error_is_some_frames arr2 fr2 e0 H2) as (i & Hi & Hd).
+    - exfalso. pose proof (proj1 (pinned_queue_error_nil_iff total arr1 fr1 P1) H1) as H1'.
+      destruct (pinned_queue_error_is_some_frames arr2 fr2 e0 H2) as (i & Hi & Hd).
       apply (H1' i); [apply zrange_In; exact (Permutation_in i P2 Hi)|exists e0; exact Hd].
-    - exfalso. pose proof (proj1 (queue_error_nil_iff total arr2 fr2 P2) H2) as H2'.
-      destruct (queue_error_is_some_frames arr1 fr1 e0 H1) as (i & Hi & Hd).
+    - exfalso. pose proof (proj1 (pinned_queue_error_nil_iff total arr2 fr2 P2) H2) as H2'.
+      destruct (pinned_queue_error_is_some_frames arr1 fr1 e0 H1) as (i & Hi & Hd).
       apply (H2' i); [apply zrange_In; exact (Permutation_in i P1 Hi)|exists e0; exact Hd].
   Qed.
 
@@ -191,7 +193,7 @@ Section Queue.
   Definition is_min_fail (total i : Z) (e : E) : Prop :=
     0 <= i < total /\ dec i = inr e /\ forall j, 0 <= j < i -> ~ fails j.
 
-  Lemma collect_min_inv l : forall fr acc,
+  Lemma collect_inv l : forall fr acc,
     (match acc with None => True | Some (j, e) => dec j = inr e end) ->
     match snd (fold_left (fun st i =>
                  match dec i with
@@ -237,7 +239,7 @@ Section Queue.
 
   Theorem queue_min_index_error_independent : forall total arrival fr,
     Permutation arrival (zrange total) ->
-    match snd (collect_min arrival fr) with
+    match snd (collect arrival fr) with
     | None => forall i, 0 <= i < total -> ~ fails i
     | Some (j, e) => is_min_fail total j e
     end.
@@ -246,7 +248,7 @@ Section Queue.
     assert (Hin : forall i, In i arrival <-> 0 <= i < total).
     { intros i. rewrite <- zrange_In. split; intros H; [eapply Permutation_in; eauto|].
       eapply Permutation_in; [apply Permutation_sym; eauto|exact H]. }
-    unfold collect_min. pose proof (collect_min_inv arrival fr None I) as H.
+    unfold collect. pose proof (collect_inv arrival fr None I) as H.
     destruct (snd (fold_left _ arrival (fr, None))) as [[j e]|].
     - destruct H as (H1 & H2 & H3 & _). destruct H2 as [H2|(e' & H2)]; [|discriminate].
       split; [apply Hin; exact H2|]. split; [exact H1|]. intros k Hk Hf.
@@ -255,16 +257,62 @@ Section Queue.
     - destruct H as [_ H]. intros i Hi. apply H, Hin. exact Hi.
   Qed.
 
+  (** the current loop: frames as for the pinned one *)
+  Lemma collect_frames_min arrival : forall frames0 err0,
+    fst (fold_left (fun st i =>
+                 match dec i with
+                 | inl v => (upd (fst st) (Z.to_nat i) (Some v), snd st)
+                 | inr e => (fst st, match snd st with
+                                     | None => Some (i, e)
+                                     | Some (j, e0) => if i <? j then Some (i, e) else Some (j, e0)
+                                     end)
+                 end) arrival (frames0, err0)) = fold_left store arrival frames0.
+  Proof.
+    induction arrival as [|i l IH]; intros fr er; cbn [fold_left]; [reflexivity|].
+    unfold store at 2. destruct (dec i) as [v|e]; cbn [fst snd]; apply IH.
+  Qed.
+
+  Theorem queue_frames_independent : forall total arrival,
+    Permutation arrival (zrange total) ->
+    fst (collect arrival (repeat None (Z.to_nat total))) = map slot (zrange total).
+  Proof.
+    intros total arrival Hperm. rewrite <- (pinned_queue_frames_independent total arrival Hperm).
+    unfold collect, pinned_collect. rewrite collect_frames_min, collect_frames. reflexivity.
+  Qed.
+
+  (** frames AND error are the same for any two arrival orders *)
+  Theorem queue_result_order_independent : forall total arr1 arr2,
+    Permutation arr1 (zrange total) -> Permutation arr2 (zrange total) ->
+    collect arr1 (repeat None (Z.to_nat total)) = collect arr2 (repeat None (Z.to_nat total)).
+  Proof.
+    intros total arr1 arr2 P1 P2.
+    pose proof (queue_frames_independent total arr1 P1) as F1.
+    pose proof (queue_frames_independent total arr2 P2) as F2.
+    pose proof (queue_min_index_error_independent total arr1 (repeat None (Z.to_nat total)) P1) as E1.
+    pose proof (queue_min_index_error_independent total arr2 (repeat None (Z.to_nat total)) P2) as E2.
+    destruct (collect arr1 _) as [f1 e1]. destruct (collect arr2 _) as [f2 e2]. cbn [fst snd] in *.
+    f_equal; [congruence|].
+    destruct e1 as [[j1 x1]|]; destruct e2 as [[j2 x2]|]; try reflexivity.
+    - destruct E1 as (B1 & D1 & M1). destruct E2 as (B2 & D2 & M2).
+      assert (j1 = j2).
+      { destruct (Z.lt_trichotomy j1 j2) as [H|[H|H]]; [|exact H|].
+        - exfalso. apply (M2 j1); [lia|exists x1; exact D1].
+        - exfalso. apply (M1 j2); [lia|exists x2; exact D2]. }
+      subst j2. rewrite D1 in D2. inversion D2. reflexivity.
+    - exfalso. destruct E1 as (B1 & D1 & _). apply (E2 j1 B1). exists x1. exact D1.
+    - exfalso. destruct E2 as (B2 & D2 & _). apply (E1 j2 B2). exists x2. exact D2.
+  Qed.
+
 End Queue.
 
 (** Full statement for the pinned rule: the returned error does not depend on the arrival
     order.  It is FALSE as soon as two frames fail with different errors. *)
-Definition queue_first_error_order_independent : Prop :=
+Definition pinned_queue_first_error_order_independent : Prop :=
   forall (A E : Type) (dec : Z -> A + E) total arr1 arr2 fr,
     Permutation arr1 (zrange total) -> Permutation arr2 (zrange total) ->
-    snd (collect A E dec arr1 fr) = snd (collect A E dec arr2 fr).
+    snd (pinned_collect A E dec arr1 fr) = snd (pinned_collect A E dec arr2 fr).
 
-Theorem queue_first_error_order_independent_refuted : ~ queue_first_error_order_independent.
+Theorem pinned_queue_first_error_order_independent_refuted : ~ pinned_queue_first_error_order_independent.
 Proof.
   intros H.
   specialize (H unit bool (fun i => if i =? 1 then inr true else if i =? 3 then inr false else inl tt)
@@ -277,6 +325,6 @@ Qed.
 
 (** not vacuous: 4 frames, frame 2 corrupt, results arriving in the order 3,0,2,1 *)
 Example queue_example :
-  collect unit bool (fun i => if i =? 2 then inr true else inl tt) [3; 0; 2; 1] (repeat None 4)
+  pinned_collect unit bool (fun i => if i =? 2 then inr true else inl tt) [3; 0; 2; 1] (repeat None 4)
   = ([Some tt; Some tt; None; Some tt], Some true).
 Proof. reflexivity. Qed.
